@@ -142,7 +142,8 @@ def canon_frags(d):
         if m:
             frs.append('F name="%s"%s par=%s%s' % (m.group(2), m.group(3), names.get(m.group(4), "-"), m.group(5)))
         elif it.startswith("E "):
-            out.append(re.sub(r' f=(\d+) ', lambda mm: ' f=%s ' % names.get(mm.group(1), mm.group(1)), it, count=1))
+            it = re.sub(r' f=(\d+) ', lambda mm: ' f=%s ' % names.get(mm.group(1), mm.group(1)), it, count=1)
+            out.append(re.sub(r' afrag=(-?\d+) ', lambda mm: ' afrag=%s ' % names.get(mm.group(1), mm.group(1)), it, count=1))
         else:
             out.append(it)
     return "|".join(out[:1] + sorted(frs) + out[1:])
